@@ -197,7 +197,7 @@ End PP.
 Lemma cand_sound_nonneg shgs dss c : inputs_nonneg shgs dss -> cand_sound shgs dss c -> 0 <= c_wn c.
 Proof.
   intros [Hs Hd] [h [d [e [x [ow [L [U R]]]]]]].
-  destruct R as [Rh [_ [Rd [_ [Re [_ [Rx [_ [_ [_ [_ [_ [_ Rw]]]]]]]]]]]]].
+  destruct R as [Rh [_ [Rd [_ [Re [_ [Rx [_ [_ [_ [_ [_ [_ [_ [_ Rw]]]]]]]]]]]]]]].
   rewrite Forall_forall in Hs, Hd.
   destruct (Hs h (nth_error_In _ _ Rh)) as [Hf Hsw]. destruct (Hd d (nth_error_In _ _ Rd)) as [Hlt Hmw].
   rewrite Forall_forall in Hsw, Hmw.
@@ -215,10 +215,17 @@ Proof.
   apply (cand_sound_nonneg shgs dss c Hi). apply (construct_sound _ _ _ _ Hc Hin).
 Qed.
 
+Lemma construct_wd_pos shgs dss tbl : construct shgs dss = Ok tbl -> Forall (fun c => 0 < c_wd c) tbl.
+Proof.
+  intros Hc. apply Forall_forall. intros c Hin.
+  destruct (construct_sound _ _ _ _ Hc Hin) as [h [d [e [x [ow [L [U R]]]]]]].
+  destruct R as [_ [_ [_ [_ [_ [_ [_ [_ [_ [_ [_ [Rh [Rw _]]]]]]]]]]]]]. rewrite Rw. exact Rh.
+Qed.
+
 Lemma cand_factors shgs dss c : cand_sound shgs dss c -> c_wn c <> 0 -> cand_factors_nonzero shgs dss c.
 Proof.
   intros [h [d [e [x [ow [L [U R]]]]]]] Hnz.
-  destruct R as [Rh [_ [Rd [_ [Re [_ [Rx [_ [_ [_ [_ [_ [_ Rw]]]]]]]]]]]]].
+  destruct R as [Rh [_ [Rd [_ [Re [_ [Rx [_ [_ [_ [_ [_ [_ [_ [_ Rw]]]]]]]]]]]]]]].
   exists h, d, e, x, ow. rewrite Rw in Hnz.
   repeat split; try assumption.
   - intros E. apply Hnz. rewrite E. ring.
@@ -307,7 +314,7 @@ Section Machine.
     split; [reflexivity|]. split; [exact Hd|]. split; [exact Hcon|]. split; [exact En|].
     split; [exact Es|]. split; [exact Hnd|].
     intros ds evs ev Hin Hev.
-    destruct (generate_valid rng choice post Hc _ _ _ _ _ _ _ _ Hnonneg Hex Eg' ds evs ev Hin Hev)
+    destruct (generate_valid rng choice post Hc _ _ _ _ _ _ _ _ Hnonneg Hex (construct_wd_pos _ _ _ Hcon) Eg' ds evs ev Hin Hev)
       as [d [c [H1 [H2 [H3 [H4 [H5 H6]]]]]]].
     exists d, c. pose proof (construct_sound _ _ _ _ Hcon H2) as Hs.
     repeat split; try assumption. apply cand_factors; [exact Hs|lia].
